@@ -742,6 +742,19 @@ func check(id, tier string) int {
 		}
 	}
 	seconds := spec.Quick
+	if tier != "thorough" {
+		// quick tier: one run in eight uses the "+deep" variant of its profile, so
+		// that states needing a long history are not left to the thorough tier alone
+		cp := *spec
+		cp.Profiles = nil
+		for i := 0; i < 7; i++ {
+			cp.Profiles = append(cp.Profiles, spec.Profiles...)
+		}
+		for _, p := range spec.Profiles {
+			cp.Profiles = append(cp.Profiles, p+"+deep")
+		}
+		spec = &cp
+	}
 	if tier == "thorough" {
 		seconds = spec.Thorough
 	}
